@@ -776,6 +776,10 @@ class MaterialIndexer(Indexer):
         if self is other: return
         phase_indexer = self._phase_indexer
         if isinstance(other, ChemicalIndexer):
+            other_data = other.data
+            for row in self.data.rows:
+                # Data of a phase is emptied before being read
+                if row is other_data: other = other.copy(); break
             self.empty()
             other_data = other.data
             phase = other.phase
